@@ -166,12 +166,19 @@ fn wrappers() -> Value {
         };
         out.push(json!(["so3new", b(a), 0, r]));
     }
-    for n in [1usize, 3, 4] {
+    for n in [0usize, 1, 2, 3, 4, 5] {
         let r = match SE2StateSpace::new(1.0, Some(vec![(0.0, 1.0); n])) {
             Ok(_) => json!(["ok"]),
             Err(_) => json!(["ValueError"]),
         };
         out.push(json!(["se2dim", n, 0, r]));
+    }
+    for n in [0usize, 1, 2, 3, 4] {
+        let r = match SE3StateSpace::new(1.0, Some(vec![(0.0, 1.0); n])) {
+            Ok(_) => json!(["ok"]),
+            Err(_) => json!(["ValueError"]),
+        };
+        out.push(json!(["se3dim", n, 0, r]));
     }
     for ang in [0.0, 3.0, PI, -PI, 7.0, -9.5, 100.0, 1e6, -1e9, 2.0 * PI, 3.0 * PI] {
         out.push(json!(["so2state", b(ang), 0, ["ok", b(SO2State::new(ang).value), b(SE2State::new(1.0, 2.0, ang).get_yaw())]]));
